@@ -62,7 +62,7 @@ func aShow(v aVal) string {
 	case aStruct:
 		n := x.t.String()
 		if nn := namedOf(x.t); nn != nil {
-			n = nn.Obj().Name()
+			n = tname(nn.Obj())
 		}
 		var ks []int
 		for k := range x.f {
@@ -300,6 +300,45 @@ func (fr *aFrame) binop(x *ssa.BinOp) aVal {
 		if sa == "nil" && sb == "nil" && (x.Op == token.EQL || x.Op == token.NEQ) {
 			return aBool(x.Op == token.EQL)
 		}
+		if x.Op == token.EQL || x.Op == token.NEQ {
+			// two definite booleans; the address of a cell is not nil
+			if ba, ok := a.(aBool); ok {
+				if bb, ok := b.(aBool); ok {
+					return aBool((ba == bb) == (x.Op == token.EQL))
+				}
+			}
+			isAddr := func(v aVal) bool {
+				switch v.(type) {
+				case aPtr, aFieldPtr:
+					return true
+				}
+				return false
+			}
+			if (isAddr(a) && sb == "nil") || (isAddr(b) && sa == "nil") {
+				return aBool(x.Op == token.NEQ)
+			}
+		}
+		if e.order != nil && isUnsignedType(x.X.Type()) {
+			// an unsigned value assumed strictly greater than another one is not zero
+			positive := func(s string) bool {
+				for k, c := range e.order {
+					if (k[0] == s && c > 0) || (k[1] == s && c < 0) {
+						return true
+					}
+				}
+				return false
+			}
+			isZero := func(v aVal) bool {
+				k, ok := v.(aConst)
+				return ok && k.v != nil && k.v.Kind() == constant.Int && constant.Sign(k.v) == 0
+			}
+			switch {
+			case isZero(b) && positive(sa):
+				return aBool(cmpOrder(x.Op, 1))
+			case isZero(a) && positive(sb):
+				return aBool(cmpOrder(x.Op, -1))
+			}
+		}
 		if e.order != nil {
 			if c, ok := e.order[[2]string{sa, sb}]; ok {
 				return aBool(cmpOrder(x.Op, c))
@@ -417,9 +456,9 @@ func (c *Ctx) aCall(fn *ssa.Function, args []aVal, env *aEnv, depth int, sums ma
 							break
 						}
 					}
-					fr.vals[x] = aSym(fmt.Sprintf("&%s.%s", aShow(p), fieldOfAddr(x).Var.Name()))
+					fr.vals[x] = aSym(fmt.Sprintf("&%s.%s", aShow(p), vname(fieldOfAddr(x).Var)))
 				default:
-					fr.vals[x] = aSym(fmt.Sprintf("&%s.%s", aShow(p), fieldOfAddr(x).Var.Name()))
+					fr.vals[x] = aSym(fmt.Sprintf("&%s.%s", aShow(p), vname(fieldOfAddr(x).Var)))
 				}
 			case *ssa.Field:
 				if s, ok := fr.get(x.X).(aStruct); ok {
@@ -428,7 +467,7 @@ func (c *Ctx) aCall(fn *ssa.Function, args []aVal, env *aEnv, depth int, sums ma
 						break
 					}
 				}
-				fr.vals[x] = aSym(fmt.Sprintf("%s.%s", aShow(fr.get(x.X)), fieldOfVal(x).Var.Name()))
+				fr.vals[x] = aSym(fmt.Sprintf("%s.%s", aShow(fr.get(x.X)), vname(fieldOfVal(x).Var)))
 			case *ssa.Store:
 				switch p := fr.get(x.Addr).(type) {
 				case aPtr:
@@ -640,7 +679,7 @@ func (fr *aFrame) call(x *ssa.Call, sums map[string]aSummary) aVal {
 				return args[0]
 			}
 		}
-		if s, ok := sums[callee.String()]; ok {
+		if s, ok := sums[refQ(callee)]; ok {
 			if v, ok := s(fr, args); ok {
 				return v
 			}
@@ -658,7 +697,7 @@ func (fr *aFrame) call(x *ssa.Call, sums map[string]aSummary) aVal {
 	}
 	n := "dyn"
 	if callee != nil {
-		n = callee.String()
+		n = refQ(callee)
 	}
 	var as []string
 	for _, a := range args {
@@ -676,6 +715,11 @@ func (fr *aFrame) call(x *ssa.Call, sums map[string]aSummary) aVal {
 		return aBool(env.atom(name))
 	}
 	return aSym(name)
+}
+
+func isUnsignedType(t types.Type) bool {
+	b, ok := t.Underlying().(*types.Basic)
+	return ok && b.Info()&types.IsUnsigned != 0
 }
 
 func isBoolType(t types.Type) bool {
